@@ -294,9 +294,418 @@ fn wl_c08(seed: u64, tier: &str) -> Vec<Vec<Value>> {
     sessions
 }
 
+
+// ---------------------------------------------------------------------------
+// tower elements as JSON
+fn f2(a: &W, b: &W) -> Value {
+    json!([nat(a), nat(b)])
+}
+fn rand_f2(r: &mut Rng, f: &FieldInfo) -> Value {
+    let a = rand_elem(r, f);
+    let b = rand_elem(r, f);
+    f2(&a, &b)
+}
+fn rand_f6(r: &mut Rng, f: &FieldInfo) -> Value {
+    json!([rand_f2(r, f), rand_f2(r, f), rand_f2(r, f)])
+}
+fn rand_f12(r: &mut Rng, f: &FieldInfo) -> Value {
+    json!([rand_f6(r, f), rand_f6(r, f)])
+}
+fn zero_w(f: &FieldInfo) -> W {
+    vec![0u64; f.nw]
+}
+/// Fq2 catalogue: 0, 1, -1, u, -u, 1+u, single coordinates, boundary pairs
+fn cat_f2(r: &mut Rng, f: &FieldInfo) -> Vec<Value> {
+    let z = zero_w(f);
+    let one = w_add_small(&z, 1);
+    let m1 = w_sub_small(&f.p, 1);
+    let half = w_shr1(&f.p);
+    let mut v = vec![];
+    let small: Vec<W> = vec![z.clone(), one.clone(), m1.clone(), w_add_small(&z, 2), half.clone(), w_add_small(&half, 1)];
+    for a in &small {
+        for b in &small {
+            v.push(f2(a, b));
+        }
+    }
+    for _ in 0..4 {
+        v.push(f2(&rand_elem(r, f), &z));
+        v.push(f2(&z, &rand_elem(r, f)));
+    }
+    v
+}
+fn f6_of(c: [&Value; 3]) -> Value {
+    json!([c[0], c[1], c[2]])
+}
+fn cat_f6(r: &mut Rng, f: &FieldInfo) -> Vec<Value> {
+    let z = zero_w(f);
+    let one = w_add_small(&z, 1);
+    let m1 = w_sub_small(&f.p, 1);
+    let z2 = f2(&z, &z);
+    let o2 = f2(&one, &z);
+    let u2 = f2(&z, &one);
+    let m2 = f2(&m1, &z);
+    let mut v = vec![];
+    v.push(f6_of([&z2, &z2, &z2]));
+    v.push(f6_of([&o2, &z2, &z2]));
+    v.push(f6_of([&m2, &z2, &z2]));
+    v.push(f6_of([&z2, &o2, &z2])); // v
+    v.push(f6_of([&z2, &z2, &o2])); // v^2
+    v.push(f6_of([&u2, &z2, &z2]));
+    v.push(f6_of([&z2, &u2, &m2]));
+    for i in 0..3 {
+        let x = rand_f2(r, f);
+        let mut c = [&z2, &z2, &z2];
+        c[i] = &x;
+        v.push(f6_of(c));
+        // Fq inside
+        let y = f2(&rand_elem(r, f), &z);
+        let mut c = [&z2, &z2, &z2];
+        c[i] = &y;
+        v.push(f6_of(c));
+    }
+    for i in 0..3 {
+        let (x, y) = (rand_f2(r, f), rand_f2(r, f));
+        let mut c = [&x, &y, &z2];
+        c.rotate_left(i);
+        v.push(f6_of(c));
+    }
+    v
+}
+fn cat_f12(r: &mut Rng, f: &FieldInfo) -> Vec<Value> {
+    let c6 = cat_f6(r, f);
+    let z6 = c6[0].clone();
+    let mut v = vec![];
+    for a in c6.iter().take(10) {
+        v.push(json!([a, z6]));
+        v.push(json!([z6, a]));
+    }
+    for a in c6.iter().skip(10) {
+        v.push(json!([a, z6]));
+    }
+    v.push(json!([c6[1], c6[1]]));
+    v.push(json!([rand_f6(r, f), c6[3]]));
+    v
+}
+
+fn ext1(fname: &str, func: &str, a: &Value) -> Value {
+    json!({"op": "ext", "f": fname, "fn": func, "a": a})
+}
+fn ext2(fname: &str, func: &str, a: &Value, b: &Value) -> Value {
+    json!({"op": "ext", "f": fname, "fn": func, "a": a, "b": b})
+}
+
+/// C09: the tower
+fn wl_c09(seed: u64, tier: &str) -> Vec<Vec<Value>> {
+    let thorough = tier == "thorough";
+    let fq = fq_info();
+    let mut r = Rng(seed.wrapping_mul(77) ^ 9);
+    let mut sessions: Vec<Vec<Value>> = vec![];
+    let frob_ks: Vec<W> = {
+        let mut k: Vec<W> = (0u64..14).map(|x| vec![x]).collect();
+        for x in [24u64, 25, 35, 36, 1u64 << 32 | 5, u64::MAX, u64::MAX - 1].iter() {
+            k.push(vec![*x]);
+        }
+        k
+    };
+    for (fname, cat) in [("Fq2", cat_f2(&mut r, &fq)), ("Fq6", cat_f6(&mut r, &fq)), ("Fq12", cat_f12(&mut r, &fq))].iter() {
+        let rnd = |r: &mut Rng| -> Value {
+            match *fname {
+                "Fq2" => rand_f2(r, &fq),
+                "Fq6" => rand_f6(r, &fq),
+                _ => rand_f12(r, &fq),
+            }
+        };
+        let mut ops = vec![];
+        // catalogue: unary on all, binary on catalogue x (catalogue sample + random)
+        for a in cat.iter() {
+            for func in ["neg", "dbl", "sqr", "inv", "is_zero"].iter() {
+                ops.push(ext1(fname, func, a));
+            }
+            if *fname != "Fq12" {
+                ops.push(ext1(fname, "mul_by_nonresidue", a));
+            }
+            if *fname == "Fq2" {
+                ops.push(ext1(fname, "norm", a));
+            }
+            if *fname == "Fq12" {
+                ops.push(ext1(fname, "conj", a));
+            }
+        }
+        sessions.push(std::mem::replace(&mut ops, vec![]));
+        let nb = if *fname == "Fq12" { 6 } else { 12 };
+        for a in cat.iter() {
+            let mut bs: Vec<Value> = (0..nb).map(|_| r.pick(cat).clone()).collect();
+            bs.push(rnd(&mut r));
+            for b in &bs {
+                for func in ["add", "sub", "mul", "eq"].iter() {
+                    ops.push(ext2(fname, func, a, b));
+                }
+                if *fname == "Fq2" {
+                    ops.push(ext2(fname, "cmp", a, b));
+                }
+            }
+            if ops.len() > 600 {
+                sessions.push(std::mem::replace(&mut ops, vec![]));
+            }
+        }
+        sessions.push(std::mem::replace(&mut ops, vec![]));
+        // Frobenius with every listed power on catalogue samples and random elements
+        let mut els: Vec<Value> = (0..4).map(|_| r.pick(cat).clone()).collect();
+        for _ in 0..(if thorough { 12 } else { 3 }) {
+            els.push(rnd(&mut r));
+        }
+        for a in &els {
+            for k in &frob_ks {
+                ops.push(json!({"op": "ext", "f": fname, "fn": "frob", "a": a, "k": nat(k)}));
+            }
+        }
+        sessions.push(std::mem::replace(&mut ops, vec![]));
+        // sparse products
+        let spn = if thorough { 400 } else { 40 };
+        if *fname == "Fq6" {
+            let c2 = cat_f2(&mut r, &fq);
+            for i in 0..spn {
+                let a = if i % 3 == 0 { r.pick(cat).clone() } else { rnd(&mut r) };
+                let c0 = if i % 4 == 0 { r.pick(&c2).clone() } else { rand_f2(&mut r, &fq) };
+                let c1 = if i % 5 == 0 { r.pick(&c2).clone() } else { rand_f2(&mut r, &fq) };
+                ops.push(json!({"op": "ext", "f": "Fq6", "fn": "mul_by_1", "a": a, "c1": c1}));
+                ops.push(json!({"op": "ext", "f": "Fq6", "fn": "mul_by_01", "a": a, "c0": c0, "c1": c1}));
+            }
+            sessions.push(std::mem::replace(&mut ops, vec![]));
+        }
+        if *fname == "Fq12" {
+            let c2 = cat_f2(&mut r, &fq);
+            for i in 0..spn {
+                let a = if i % 3 == 0 { r.pick(cat).clone() } else { rnd(&mut r) };
+                let c0 = if i % 4 == 0 { r.pick(&c2).clone() } else { rand_f2(&mut r, &fq) };
+                let c1 = if i % 5 == 0 { r.pick(&c2).clone() } else { rand_f2(&mut r, &fq) };
+                let c4 = if i % 7 == 0 { r.pick(&c2).clone() } else { rand_f2(&mut r, &fq) };
+                ops.push(json!({"op": "ext", "f": "Fq12", "fn": "mul_by_014", "a": a, "c0": c0, "c1": c1, "c4": c4}));
+                if ops.len() >= 60 {
+                    sessions.push(std::mem::replace(&mut ops, vec![]));
+                }
+            }
+            sessions.push(std::mem::replace(&mut ops, vec![]));
+        }
+        // random arithmetic
+        let n = match (*fname, thorough) {
+            ("Fq2", false) => 3000,
+            ("Fq2", true) => 60000,
+            ("Fq6", false) => 1200,
+            ("Fq6", true) => 20000,
+            (_, false) => 500,
+            (_, true) => 8000,
+        };
+        let per = match *fname {
+            "Fq2" => 1500,
+            "Fq6" => 300,
+            _ => 60,
+        };
+        for i in 0..n {
+            let a = rnd(&mut r);
+            let b = rnd(&mut r);
+            let func = *r.pick(&["add", "sub", "mul", "mul", "sqr", "inv", "neg", "dbl", "pow"]);
+            if func == "pow" {
+                let k = 1 + r.below(2) as usize;
+                let e = rand_wide(&mut r, k);
+                ops.push(json!({"op": "ext", "f": fname, "fn": "pow", "a": a, "e": nat(&e), "ew": k}));
+            } else {
+                ops.push(ext2(fname, func, &a, &b));
+            }
+            if (i + 1) % per == 0 {
+                sessions.push(std::mem::replace(&mut ops, vec![]));
+            }
+        }
+        if !ops.is_empty() {
+            sessions.push(ops);
+        }
+    }
+    sessions.retain(|s| !s.is_empty());
+    sessions
+}
+
+/// C18: square roots, quadratic character, sgn0, ordering
+fn wl_c18(seed: u64, tier: &str) -> Vec<Vec<Value>> {
+    let thorough = tier == "thorough";
+    let mut sessions: Vec<Vec<Value>> = vec![];
+    let mut r = Rng(seed.wrapping_mul(1313) ^ 18);
+    for f in [fq_info(), fr_info()].iter() {
+        let cat = catalogue(f);
+        let mut ops = vec![];
+        let mut els: Vec<W> = cat.clone();
+        for _ in 0..(if thorough { 20000 } else { 700 }) {
+            els.push(rand_elem(&mut r, f));
+        }
+        for (i, a) in els.iter().enumerate() {
+            ops.push(fp(f, "sqrt", a));
+            ops.push(fp(f, "legendre", a));
+            if f.name == "Fq" {
+                ops.push(fp(f, "sgn0", a));
+                ops.push(fp(f, "ypair", a));
+                ops.push(json!({"op": "fp", "f": f.name, "fn": "negate_if", "a": nat(a), "s": i % 2}));
+                // y and -y: p - y is the negation for y != 0 (input construction only)
+            }
+            let b = r.pick(&els).clone();
+            ops.push(fp2(f, "cmp", a, &b));
+            if ops.len() >= 1500 {
+                sessions.push(std::mem::replace(&mut ops, vec![]));
+            }
+        }
+        sessions.push(std::mem::replace(&mut ops, vec![]));
+    }
+    // Fq2
+    let fq = fq_info();
+    let c2 = cat_f2(&mut r, &fq);
+    let z = zero_w(&fq);
+    let mut els: Vec<Value> = c2.clone();
+    let n = if thorough { 6000 } else { 300 };
+    for i in 0..n {
+        els.push(match i % 4 {
+            0 => f2(&rand_elem(&mut r, &fq), &z), // in Fq: real or purely imaginary root
+            1 => f2(&z, &rand_elem(&mut r, &fq)), // purely imaginary
+            _ => rand_f2(&mut r, &fq),
+        });
+    }
+    let mut ops = vec![];
+    for (i, a) in els.iter().enumerate() {
+        ops.push(ext1("Fq2", "sqrt", a));
+        ops.push(ext1("Fq2", "legendre", a));
+        ops.push(ext1("Fq2", "sgn0", a));
+        ops.push(ext1("Fq2", "ypair", a));
+        ops.push(json!({"op": "ext", "f": "Fq2", "fn": "negate_if", "a": a, "s": i % 2}));
+        let b = r.pick(&els).clone();
+        ops.push(ext2("Fq2", "cmp", a, &b));
+        // squares by construction: the library's own square is only input preparation
+        ops.push(json!({"op": "ext", "f": "Fq2", "fn": "sqrt_of_square", "a": a}));
+        if ops.len() >= 400 {
+            sessions.push(std::mem::replace(&mut ops, vec![]));
+        }
+    }
+    sessions.push(ops);
+    sessions.retain(|s| !s.is_empty());
+    sessions
+}
+
+
+// ---------------------------------------------------------------------------
+// C01: random programs over the register machine
+use pairing::bls12_381::{G1, G2};
+use pairing::{CurveAffine, CurveProjective, EncodedPoint};
+use rand_core::SeedableRng;
+
+fn xs(seed: u64) -> rand_xorshift::XorShiftRng {
+    let mut s = [0u8; 16];
+    s[..8].copy_from_slice(&seed.to_le_bytes());
+    s[8..].copy_from_slice(&(!seed).to_le_bytes());
+    rand_xorshift::XorShiftRng::from_seed(s)
+}
+
+/// a curve point of (almost surely) full order: unchecked decoding of a random compressed string
+pub fn full_order_point<G: Grp>(r: &mut Rng) -> G::Affine
+where
+    G::Base: J,
+{
+    loop {
+        let mut c = <<G::Affine as CurveAffine>::Compressed as EncodedPoint>::empty();
+        let n = c.as_ref().len();
+        let b = r.bytes(n);
+        c.as_mut().copy_from_slice(&b);
+        c.as_mut()[0] = (c.as_mut()[0] & 0x1f) | 0x80 | ((r.below(2) as u8) << 5);
+        if n == 96 {
+            // keep both Fq2 coordinates' top bits small enough to be reduced most of the time
+            c.as_mut()[48] &= 0x1f;
+        }
+        if let Ok(p) = c.into_affine_unchecked() {
+            if !p.is_zero() {
+                return p;
+            }
+        }
+    }
+}
+
+fn c01_program<G: Grp>(r: &mut Rng, seed: u64, steps: usize) -> Vec<Value>
+where
+    G: CurveProjective<Scalar = Fr>,
+    G::Base: J,
+    G::Affine: CurveAffine<Projective = G, Base = G::Base, Scalar = Fr>,
+{
+    let g = G::NAME;
+    let mut rng = xs(seed);
+    let mut ops = vec![json!({"op": "cm", "g": g, "fn": "reset"})];
+    let nreg = 4u64;
+    // initial points: generator multiples, random subgroup points, full-order curve points
+    let mut pool: Vec<G> = vec![G::one(), G::zero()];
+    for _ in 0..2 {
+        pool.push(G::random(&mut rng));
+    }
+    for _ in 0..2 {
+        pool.push(full_order_point::<G>(r).into_projective());
+    }
+    let mut two = G::one();
+    two.double();
+    pool.push(two);
+    for d in 0..nreg {
+        let p = r.pick(&pool);
+        ops.push(json!({"op": "cm", "g": g, "fn": "load", "d": d, "v": proj_to_j(p), "cls": "rand"}));
+        let q = r.pick(&pool).into_affine();
+        ops.push(json!({"op": "cm", "g": g, "fn": "load_aff", "d": d, "v": aff_to_j(&q), "cls": "rand"}));
+    }
+    let fq = fq_info();
+    for _ in 0..steps {
+        let d = r.below(nreg);
+        let s = r.below(nreg);
+        let f = *r.pick(&[
+            "add", "add", "add", "sub", "sub", "add_mixed", "add_mixed", "sub_mixed", "double", "double",
+            "negate", "negate_aff", "into_affine", "into_projective", "eq", "eq_aff", "is_zero",
+            "is_zero_aff", "is_normalized", "copy", "copy", "rescale", "batch", "reload",
+        ]);
+        match f {
+            "rescale" => {
+                let lam = if g == "G1" { nat(&rand_elem(r, &fq)) } else { rand_f2(r, &fq) };
+                ops.push(json!({"op": "cm", "g": g, "fn": "rescale", "d": d, "lam": lam, "cls": "rand"}));
+            }
+            "batch" => {
+                let n = r.below(nreg + 1);
+                let regs: Vec<u64> = (0..n).map(|_| r.below(nreg)).collect();
+                // distinct registers only (a batch is a slice of distinct elements)
+                let mut regs2: Vec<u64> = vec![];
+                for x in regs {
+                    if !regs2.contains(&x) {
+                        regs2.push(x);
+                    }
+                }
+                ops.push(json!({"op": "cm", "g": g, "fn": "batch_normalization", "regs": regs2, "cls": "rand"}));
+            }
+            "reload" => {
+                let p = r.pick(&pool);
+                ops.push(json!({"op": "cm", "g": g, "fn": "load", "d": d, "v": proj_to_j(p), "cls": "rand"}));
+            }
+            _ => ops.push(json!({"op": "cm", "g": g, "fn": f, "d": d, "s": s, "cls": "rand"})),
+        }
+    }
+    ops
+}
+
+fn wl_c01(seed: u64, tier: &str) -> Vec<Vec<Value>> {
+    let thorough = tier == "thorough";
+    let mut r = Rng(seed.wrapping_mul(101) ^ 1);
+    let mut sessions = vec![];
+    let (n1, n2, len) = if thorough { (120, 60, 400) } else { (12, 6, 250) };
+    for i in 0..n1 {
+        sessions.push(c01_program::<G1>(&mut r, seed * 1000 + i, len));
+    }
+    for i in 0..n2 {
+        sessions.push(c01_program::<G2>(&mut r, seed * 1000 + 500 + i, len / 2));
+    }
+    sessions
+}
+
 pub fn generate(name: &str, seed: u64, tier: &str) -> Vec<Vec<Value>> {
     match name {
+        "c01" => wl_c01(seed, tier),
         "c08" => wl_c08(seed, tier),
+        "c09" => wl_c09(seed, tier),
+        "c18" => wl_c18(seed, tier),
         _ => panic!("unknown workload {}", name),
     }
 }
